@@ -168,17 +168,22 @@ USER_TYPES = {
 }
 
 
-def user_series(tname: str, n: int, r: int) -> np.ndarray:
-    """value for observation i, draw j: injective in (type, i, j) (distinct
-    irrational-ish multipliers, fractional part), so that a transposition, a
-    series fed to another variable or a shifted index changes the numbers."""
-    code, low, span = USER_TYPES[tname]
+def coded_series(code: float, low: float, span: float, n: int, r: int) -> np.ndarray:
+    """low + span * frac(...): injective in (code, observation, draw), not symmetric in (observation, draw)"""
     i = np.arange(n, dtype=float)[:, None]
     j = np.arange(r, dtype=float)[None, :]
     t = (0.3819660112501051 * (i + 1) + 0.7548776662466927 * (j + 1) * (1 + 0.01 * code) + 0.5698402909980532 * code
          + 0.1234 * (i + 1) * (j + 1))
     frac = t - np.floor(t)
     return low + span * frac
+
+
+def user_series(tname: str, n: int, r: int) -> np.ndarray:
+    """value for observation i, draw j: injective in (type, i, j) (distinct
+    irrational-ish multipliers, fractional part), so that a transposition, a
+    series fed to another variable or a shifted index changes the numbers."""
+    code, low, span = USER_TYPES[tname]
+    return coded_series(code, low, span, n, r)
 
 
 def match_columns(table: np.ndarray, names: list, types: dict, productions: dict) -> list[str]:
